@@ -924,7 +924,12 @@ namespace chaiscript {
         const auto start = m_position;
         if (Id_()) {
           auto text = Position::str(start, m_position);
-          const auto text_hash = utility::hash(text);
+
+          // The hash only selects the case below: word literals are recognised by their exact spelling,
+          // any other identifier, whatever its hash, is an ordinary name (an identifier is never empty).
+          constexpr std::string_view word_literals[] = {"true", "false", "Infinity", "NaN", "__LINE__", "__FILE__", "__FUNC__", "__CLASS__", "_"};
+          const bool is_word_literal = std::find(std::begin(word_literals), std::end(word_literals), text) != std::end(word_literals);
+          const auto text_hash = is_word_literal ? utility::hash(text) : utility::hash("");
 
           if (validate) {
             validate_object_name(text);
